@@ -2,6 +2,7 @@ import Proofs.Lemmas.SSZCanonical
 import Zrnt.Gen.SszFacts
 import Proofs.Lemmas.SSZSchemaLegal
 import Proofs.Lemmas.SSZPolyNF
+import Proofs.Lemmas.SSZDenote
 /-!
 # C04 — SSZ encoding round-trips, agrees with declared lengths, and malformed input is refused
 
@@ -150,7 +151,126 @@ theorem ssz_types_complete :
     simpa using this
   · decide +kernel
 
+/-! ## What a checked row means: the Go methods compute the specification's functions -/
+
+open Zrnt.Schema Zrnt.Schema.Facts Zrnt.Gen.SszFacts in
+/-- no method body of the regenerated table is outside the recognised shapes -/
+theorem no_opaque_bodies : types.all (fun T => T.opaqueMethods.isEmpty) = true := by decide +kernel
+
+open Zrnt.Schema Zrnt.Schema.Facts Zrnt.Gen.SszFacts in
+/-- **Semantic soundness of the facts check, struct types.** Let `T` be a row of the regenerated table whose
+specification schema is a container, and let `env` give, for the Go type of every field, an implementation that
+meets the specification at that field type's schema (compositional hypothesis: those types have their own rows).
+Then what the five Go methods of `T` compute — the models of ztyp's `w.Container` / `FixedLenContainer` /
+`dr.Container` / `codec.ContainerLength` / `hFn.HashTreeRoot` (`Zrnt.SSZ.Impl`) applied to the field
+implementations in the order the method bodies list them, resp. the constants the length methods return — is
+the specification at `T`'s schema under the configuration `c`: `Deserialize = decode`, `FixedLength = fixedLen`,
+and on every well-typed value `Serialize = encode`, `ByteLength = byteLength`, `HashTreeRoot = htr`.
+(ztyp's combinators are modelled at the level of whole scopes; the real ones are compared with the same
+specification by the differential run.) -/
+theorem checkType_sound_struct (H : Hash2) (c : Config) (hpos : ∀ k, 0 < c k) (hsync : 4 ≤ c n!"SYNC_COMMITTEE_SIZE")
+    (env : Env) (T : GoType) (hT : T ∈ types) (sfs : SFields) (fields : List GoField)
+    (hschema : Spec.lookup T.name = some (.container sfs)) (hdecl : T.decl = .struct fields)
+    (henv : EnvOk H c env fields) :
+    ∃ I, denoteStruct H c owners views env fields T = some I ∧
+      I.des = decode ((STy.container sfs).eval c) ∧ I.flen = ((STy.container sfs).eval c).fixedLen ∧
+      ∀ v, WF ((STy.container sfs).eval c) v →
+        I.ser v = encode ((STy.container sfs).eval c) v ∧ I.blen v = byteLength ((STy.container sfs).eval c) v ∧
+        I.root v = htr H ((STy.container sfs).eval c) v := by
+  obtain ⟨hs, hdes, hser, hbl, hfl, hroot⟩ := extract_struct owners views T sfs fields (ssz_methods_agree T hT) hschema hdecl
+  -- the schema entry is legal under the configuration
+  have hmem : (T.name, STy.container sfs) ∈ Spec.table := by
+    unfold Spec.lookup at hschema
+    cases hf : Spec.table.find? (·.1 == T.name) with
+    | none => simp [hf] at hschema
+    | some e =>
+      simp only [hf, Option.map_some, Option.some.injEq] at hschema
+      have hm := List.mem_of_find?_eq_some hf
+      have hk := List.find?_some hf
+      have : e = (T.name, STy.container sfs) := by
+        cases e; simp only [beq_iff_eq] at hk; simp_all
+      rw [← this]; exact hm
+  have hleg := schema_types_legal c hpos hsync _ hmem
+  simp only [STy.eval, Ty.Legal] at hleg
+  -- no opaque bodies
+  have hop := List.all_eq_true.mp no_opaque_bodies T hT
+  simp only [GoType.opaqueMethods, List.isEmpty_iff, List.map_eq_nil_iff, List.filter_eq_nil_iff] at hop
+  have o1 : T.deserialize.isOpaque = false := by simpa using hop ("Deserialize", T.deserialize) (by simp)
+  have o2 : T.serialize.isOpaque = false := by simpa using hop ("Serialize", T.serialize) (by simp)
+  have o3 : T.byteLength.isOpaque = false := by simpa using hop ("ByteLength", T.byteLength) (by simp)
+  have o4 : T.fixedLength.isOpaque = false := by simpa using hop ("FixedLength", T.fixedLength) (by simp)
+  have o5 : T.hashTreeRoot.isOpaque = false := by simpa using hop ("HashTreeRoot", T.hashTreeRoot) (by simp)
+  have e1 := structSer_sound H c owners views env fields sfs hleg.2 hs henv _ o2 hser
+  have e2 := structDes_sound H c owners views env fields sfs hleg.2 hs henv _ o1 hdes
+  obtain ⟨b, e3, hb⟩ := structBlen_sound H c owners views env fields sfs hleg.2 hs henv _ o3 hbl
+  have e4 := structFlen_sound H c owners views env fields sfs hs henv _ o4 hfl
+  have e5 := structRoot_sound H c owners views env fields sfs hs henv _ o5 hroot
+  simp only [STy.eval]
+  exact ⟨⟨encode (.container (sfs.eval c)), decode (.container (sfs.eval c)), b, (Ty.container (sfs.eval c)).fixedLen,
+      htr H (.container (sfs.eval c))⟩,
+    by simp only [denoteStruct, e1, e2, e3, e4, e5], rfl, rfl, fun v hw => ⟨rfl, hb v hw, rfl⟩⟩
+
+open Zrnt.Schema Zrnt.Schema.Facts Zrnt.Gen.SszFacts in
+/-- the membership half of `Spec.lookup` -/
+theorem lookup_mem (n : Name) (st : STy) (h : Spec.lookup n = some st) : (n, st) ∈ Spec.table := by
+  unfold Spec.lookup at h
+  cases hf : Spec.table.find? (·.1 == n) with
+  | none => simp [hf] at h
+  | some e =>
+    simp only [hf, Option.map_some, Option.some.injEq] at h
+    have hm := List.mem_of_find?_eq_some hf
+    have hk := List.find?_some hf
+    have : e = (n, st) := by
+      cases e; simp only [beq_iff_eq] at hk; simp_all
+    rw [← this]; exact hm
+
+open Zrnt.Schema Zrnt.Schema.Facts Zrnt.Gen.SszFacts in
+/-- **Semantic soundness of the facts check, list wrapper types** (`type Deposits []Deposit` …). If the element
+implementation `e` meets the specification at the element schema, then what the five methods of the list type
+compute — ztyp's `w.List(item, size, len)`, `dr.List(add, size, limit)`, `len * size` resp. `Σ (item + offset)`,
+`0`, and `ComplexListHTR / Uint64ListHTR / Uint8ListHTR(…, limit)` with the size and limit expressions of the
+method bodies evaluated under `c` — is the specification at `List[elem, limit]`: in particular the limit used by
+`Deserialize` and by `HashTreeRoot` is the schema's limit under every configuration, and the packing helper fits
+the element type. -/
+theorem checkType_sound_list (H : Hash2) (c : Config) (hpos : ∀ k, 0 < c k) (hsync : 4 ≤ c n!"SYNC_COMMITTEE_SIZE")
+    (T : GoType) (hT : T ∈ types) (elem : STy) (lim : LExpr)
+    (hschema : Spec.lookup T.name = some (.list elem lim)) :
+    ∃ I, denoteList H c owners views (specImpl H (elem.eval c)) T = some I ∧
+      I.des = decode ((STy.list elem lim).eval c) ∧ I.flen = ((STy.list elem lim).eval c).fixedLen ∧
+      ∀ v, WF ((STy.list elem lim).eval c) v →
+        I.ser v = encode ((STy.list elem lim).eval c) v ∧ I.blen v = byteLength ((STy.list elem lim).eval c) v ∧
+        I.root v = htr H ((STy.list elem lim).eval c) v := by
+  obtain ⟨hdes, hser, hbl, hfl, hroot⟩ := extract_list owners views T elem lim (ssz_methods_agree T hT) hschema
+  have hleg := schema_types_legal c hpos hsync _ (lookup_mem _ _ hschema)
+  simp only [STy.eval, Ty.Legal] at hleg
+  have hop := List.all_eq_true.mp no_opaque_bodies T hT
+  simp only [GoType.opaqueMethods, List.isEmpty_iff, List.map_eq_nil_iff, List.filter_eq_nil_iff] at hop
+  have o1 : T.deserialize.isOpaque = false := by simpa using hop ("Deserialize", T.deserialize) (by simp)
+  have o2 : T.serialize.isOpaque = false := by simpa using hop ("Serialize", T.serialize) (by simp)
+  have o3 : T.byteLength.isOpaque = false := by simpa using hop ("ByteLength", T.byteLength) (by simp)
+  have o4 : T.fixedLength.isOpaque = false := by simpa using hop ("FixedLength", T.fixedLength) (by simp)
+  have o5 : T.hashTreeRoot.isOpaque = false := by simpa using hop ("HashTreeRoot", T.hashTreeRoot) (by simp)
+  have e1 := listSer_sound H c owners views elem lim hleg _ o2 hser
+  have e2 := listDes_sound H c owners views elem lim hleg _ o1 hdes
+  obtain ⟨b, e3, hb⟩ := listBlen_sound H c owners views elem lim hleg _ o3 hbl
+  have e4 := listFlen_sound c owners views elem lim _ o4 hfl
+  have e5 := listRoot_sound H c owners views elem lim _ o5 hroot
+  simp only [STy.eval]
+  exact ⟨⟨encode (.list (elem.eval c) (lim.eval c)), decode (.list (elem.eval c) (lim.eval c)), b,
+      (Ty.list (elem.eval c) (lim.eval c)).fixedLen, htr H (.list (elem.eval c) (lim.eval c))⟩,
+    by simp only [denoteList, e1, e2, e3, e4, e5], rfl, rfl, fun v hw => ⟨rfl, hb v hw, rfl⟩⟩
+
 /-! ## Non-vacuity: the hypotheses are satisfiable, and the refusals are real -/
+
+open Zrnt.Schema Zrnt.Schema.Facts in
+/-- the compositional hypothesis of `checkType_sound_struct` is satisfiable: the environment of specifications -/
+example (H : Hash2) (c : Config) (fields : List GoField) :
+    EnvOk H c (fun n => match goTypeSTy n with
+      | some u => specImpl H (u.eval c)
+      | none => default) fields := by
+  intro f _ u hu
+  simp [hu]
+
 
 /-- a container with a fixed field, a variable field and a bitlist: `{a: uint16, b: List[uint8, 4], c: Bitlist[5]}` -/
 def exTy : Ty := .struct [("a", .uint 2), ("b", .list (.uint 1) 4), ("c", .bitlist 5)]
